@@ -7,7 +7,7 @@ CFG = {
     "signatures": {},
     "rule": "exhaustive: every history of exactly L steps (quick L=6, one heap: Insert key 1 / Insert key 2 with fresh values / Delete / DeleteAll; "
             "three keys without DeleteAll, L=5; binomial/Fibonacci two keys without DeleteAll, L=8; two mergeable heaps, L=4: the same on both plus Merge in both directions; binary heap additionally with initial sizes 1..4) x 3 implementations "
-            "x min/max comparator, with the full battery Size/IsEmpty/Peek/ContainsKey 1,2,3/ContainsValue held,absent/verify()/layout dump after every step; "
+            "x 6 comparators (the library's +-1 min and max comparators and magnitude comparators a-b, b-a, 3(a-b), 3(b-a); full depth under min and 3(b-a), one step less under the others), with the full battery Size/IsEmpty/Peek/ContainsKey 1,2,3/ContainsValue held,absent/verify()/layout dump after every step; "
             "shapes: binary heap fill-and-drain across every resize boundary for initial sizes 0..6, merges of heaps of sizes a,b (carry chains, three trees of one order) "
             "then drain, 2^k+1 inserts + Delete (one tree of degree k, k <= 9 quick / 12 thorough) with ascending/descending/equal/random keys, float64 maxDegree(n) against the exact definition; random: pools of 1..8 heaps, up to 1200 (thorough 2000) steps, duplicate-heavy key ranges "
             "{1,2,3,5,16,64,1000}, ascending/descending/equal/saw-tooth shapes, Merge, DeleteAll, final drain. "
@@ -17,6 +17,6 @@ CFG = {
         "Go int arithmetic does not overflow (sizes < 2^62; 2*j and len*2 stay far below)",
         "float64 int(math.Log(n)/math.Log(phi))+1 equals the exact 1+max{d | phi^d <= n} used by the model for every n < L_35 = 20633239 (swept on every run: all n <= 20000 quick / 10^6 thorough, and +-2 around phi^d below 2*10^7); from n = L_35 on, float64 rounding deviates by one at isolated Lucas numbers (first upwards at L_35; first downwards at L_42 = 599074578, where the table still has 42 > log2 n slots) - sizes no run reaches",
         "a heap passed to Merge is not used afterwards (its nodes are shared with the receiver); self-merge and Merge across implementations are outside the property",
-        "keys and values are Go ints compared by generic.NewCompareFunc / NewReverseCompareFunc; the theorems hold for every comparator satisfying TotalOrder and every eqVal",
+        "keys and values are Go ints; comparators: generic.NewCompareFunc / NewReverseCompareFunc (+-1) and a-b, b-a, 3(a-b), 3(b-a) (magnitudes, legal under the negative/zero/positive contract; no overflow for the key ranges used); the model is run with the same comparator value for value; the theorems hold for every comparator satisfying TotalOrder and every eqVal",
     ],
 }
